@@ -90,9 +90,36 @@ class Ctx:
         return reals, kept
 
 
+ASSUMPTIONS_COMMON = [
+    "Lean 4.33.0 kernel; the theorems depend on no axiom beyond propext, Classical.choice, Quot.sound (audited on this run)",
+    "the Lean model of the parser and the generator is hand-written: it is tied to /repo by the translated tables and by the differential "
+    "runs of this check (K1 tokens, K1-parse), which sample inputs - they do not prove the model equal to the code",
+    "syn is an oracle: its answers for every compared input come from the real syn; theorems quantify over all oracles",
+    "Sem (the semantics given to the emitted Rust constructs) is validated against rustc-compiled executions (K2), not derived from rustc",
+]
+ASSUMPTIONS = {
+    "C01": ["rustc's type checker is not modelled: 'a well-typed chain compiles' is decided by compiling generated chains (K2-chains)"],
+    "C03": ["OS thread scheduling is the relation Lin (threads run their bodies in order; join returns after the thread finished)",
+            "async: rustc's async/.await and futures::join!/try_join! behave like Plan.poll / pollStep (checked per poll by K2-async)"],
+    "C05": ["async try macros: which of several failing chains is returned depends on the schedule (stated as such in the theorems)"],
+    "C07": ["tokio's task scheduling is outside the model; agreement of the task-spawning kinds is validated on a current-thread runtime"],
+    "C08": ["OS thread scheduling is the relation Lin; std::thread::Builder::spawn/join and thread naming are modelled, validated by K2"],
+    "C09": ["rustc's async/.await and futures::join!/try_join! behave like Plan.poll / pollStep (checked per poll by K2-async on a deterministic "
+            "executor); tokio's scheduler is outside the model (batch-level comparison on a current-thread runtime)"],
+    "C10": ["rustc's move semantics are outside Lean: drops / moves are measured by the cost program"],
+    "C14": ["operands are characterised by what syn answers about their token prefixes (hypotheses OperandOK / ItemOK of the round-trip theorems)"],
+    "C15": ["'valid Rust' = accepted by syn::parse2::<Expr>, not by rustc; syn rejects the empty token stream as an expression (checked on this run)"],
+    "C18": ["tokio turns a panicking task into a JoinError (template __spawn_tokio); real unwinding is exercised by K2 panic injection"],
+    "C19": ["allocation and Clone freedom are measured by the cost program (counting allocator, drop counters), not proved; rustc's borrow checker is not modelled"],
+    "C20": ["purity of the implementation is sampled: in-process histories (reversed, interleaved, fresh threads, 8 threads) plus a source audit for hidden state; "
+            "across processes it is not exercised"],
+}
+
+
 def base_pipeline(pid, tier, seed, module, body):
     """Common steps 1, 2, 5 around a property's own K1/K2 body."""
     out = Outcome(pid, tier, seed)
+    out.assumptions = ASSUMPTIONS_COMMON + ASSUMPTIONS.get(pid, [])
     ctx = Ctx(pid, tier, seed, out)
     # checks of different properties may run at the same time: the shared preparation (harness build, translator, lake
     # build and axiom audit in the one Lean package) is done by one process at a time
